@@ -18,9 +18,12 @@ Kinds == {"ifT", "ifElseT", "ifElseE", "elif1", "elif2", "while", "fromTo", "fro
           \* conditions that are read out of a list element (what reaches if_stmt / while_loop is a view of the slot)
           "ifSlot", "whileSlot",
           \* a parameterless function whose very first instruction is the condition of a loop (a jump back to instruction 0)
-          "fnWhile"}
+          "fnWhile",
+          \* loops whose body *ends* in an unconditional `break` / `return` behind the nested part (a retry loop): the first
+          \* iteration takes the nested part, the second one reaches the tail
+          "whileBrk", "fromBrk", "fnWhileRet"}
 Terms == {"fall", "break", "continue", "ret", "assert", "div0", "oob"}
-LoopKinds == {"while", "fromTo", "fromThru", "fromStep", "fromAnon", "fromColl", "whileX", "fromToX", "fromStepX", "fromEmpty", "fromVars", "fromThruVar", "whileSlot", "fnWhile"}
+LoopKinds == {"while", "fromTo", "fromThru", "fromStep", "fromAnon", "fromColl", "whileX", "fromToX", "fromStepX", "fromEmpty", "fromVars", "fromThruVar", "whileSlot", "fnWhile", "whileBrk", "fromBrk", "fnWhileRet"}
 
 VARIABLES path, term, pad, done
 vars == <<path, term, pad, done>>
@@ -32,9 +35,9 @@ Name(p, d) == p \o ToString(d)
 Ctx0 == [lv |-> "", inloop |-> FALSE, infn |-> FALSE]
 Enter(ctx, k, d) ==
     CASE k = "fn" -> [lv |-> "", inloop |-> FALSE, infn |-> TRUE]
-      [] k = "fnWhile" -> [lv |-> Name("hc", d), inloop |-> TRUE, infn |-> TRUE]
-      [] k \in {"while", "whileX", "whileSlot"} -> [ctx EXCEPT !.lv = Name("w", d), !.inloop = TRUE]
-      [] k \in {"fromTo", "fromThru", "fromStep", "fromColl", "fromToX", "fromStepX", "fromVars", "fromThruVar"} -> [ctx EXCEPT !.lv = Name("i", d), !.inloop = TRUE]
+      [] k \in {"fnWhile", "fnWhileRet"} -> [lv |-> Name("hc", d), inloop |-> TRUE, infn |-> TRUE]
+      [] k \in {"while", "whileX", "whileSlot", "whileBrk"} -> [ctx EXCEPT !.lv = Name("w", d), !.inloop = TRUE]
+      [] k \in {"fromTo", "fromThru", "fromStep", "fromColl", "fromToX", "fromStepX", "fromVars", "fromThruVar", "fromBrk"} -> [ctx EXCEPT !.lv = Name("i", d), !.inloop = TRUE]
       [] k \in {"fromAnon", "fromEmpty"} -> [ctx EXCEPT !.inloop = TRUE]
       [] OTHER -> ctx
 RECURSIVE CtxAt(_, _, _)
@@ -89,6 +92,16 @@ Build(p, d, t, ctx, padded) ==
                             Let(Name("f", d), Fn(Name("f", d), <<>>, "int",
                                 <<While(Bin("<", V(Name("hc", d)), I(2)), <<Modify(Name("hc", d), Bin("+", V(Name("hc", d)), I(1)))>> \o body)>> \o <<Ret(I(10 + d))>>)),
                             Print(Call(V(Name("f", d)), <<>>))>> \o after
+      [] k = "whileBrk" -> <<Let(Name("w", d), I(0)),
+                             While(Bin("<", V(Name("w", d)), I(5)),
+                                   <<Let(Name("w", d), Bin("+", V(Name("w", d)), I(1)))>> \o body \o <<Print(S(Name("tail", d))), Brk>>)>> \o after
+      [] k = "fromBrk" -> <<From(I(1), I(6), FALSE, <<>>, Name("i", d), body \o <<Print(S(Name("tail", d))), Brk>>)>> \o after
+      [] k = "fnWhileRet" -> <<Let(Name("hc", d), I(0)),
+                               Let(Name("f", d), Fn(Name("f", d), <<>>, "int",
+                                   <<While(Bin("<", V(Name("hc", d)), I(5)),
+                                           <<Modify(Name("hc", d), Bin("+", V(Name("hc", d)), I(1)))>> \o body \o <<Print(S(Name("tail", d))), Ret(I(70 + d))>>)>>
+                                   \o <<Ret(I(10 + d))>>)),
+                               Print(Call(V(Name("f", d)), <<>>))>> \o after
       [] k = "ifSlot" -> <<LetT(Name("fl", d), "[bool...]", List(<<Eq(ctx, 1), B(FALSE)>>)), Let(Name("k", d), I(0)),
                            If(Idx(V(Name("fl", d)), V(Name("k", d))), body)>> \o after
       [] k = "whileSlot" -> <<LetT(Name("fl", d), "[bool...]", List(<<B(TRUE), B(TRUE), B(TRUE), B(FALSE)>>)), Let(Name("w", d), I(-1)),
